@@ -5,8 +5,9 @@
    cells each, bucket b >= 2 holds 2^(shift+b-1).  Every cell carries the lifetime state of the object in it
    (Base/Life.v: Unborn / Alive / MovedFrom / Dead) and the element's tag; the lifetime events of every operation
    are accounted in a ledger (counters of Base/Life.v, list of misuses), exactly as harness/life.h does for the real
-   element type.  The model describes the code as it is: e.g. erase() moves the tail down and leaves the vacated
-   cells alone, insert(pos, value) placement-news over the moved-from element.  *)
+   element type.  The model describes the code as it is (after the repairs 6742701 / c8c0b30 of /repo: erase()
+   destroys the vacated tail and returns the position of the removed element, insert(pos, value) assigns to the
+   element insertPartial left at pos).  *)
 From Coq Require Import ZArith List Bool Lia.
 From DV Require Import Base.MachInt Base.Life.
 Import ListNotations.
@@ -333,13 +334,13 @@ Definition shrink_to_fit (tr : traits) (vl : cvec * cled) : cvec * cled :=
 Definition destruct_vec (tr : traits) (vl : cvec * cled) : cled :=
   snd (release_bucket 1 (release_bucket 0 (shrink_to_fit tr (clear vl)))).
 
-(* insertPartial(pos) + placement new of the value; insertPartial(pos, len) + fill_n / copy_n *)
+(* insertPartial(pos) + assignment of the value (copy or move); insertPartial(pos, len) + fill_n / copy_n *)
 Definition insert_one (tr : traits) (k : ckind) (pos t : Z) (vl : cvec * cled) : cvec * cled * Z :=
   let e := vl_size vl in
   let vl1 := alloc_at tr e (vl_with_size (e + 1) vl) in
   let vl2 := upd_cell (c_construct KValue 0) e vl1 in
   let vl3 := move_bwd (Z.to_nat (e - pos)) e (e + 1) vl2 in
-  (upd_cell (c_construct k t) pos vl3, pos).
+  (upd_cell (c_assign_to k t) pos vl3, pos).
 Definition insert_list (tr : traits) (pos : Z) (tags : list Z) (vl : cvec * cled) : cvec * cled * Z :=
   let e := vl_size vl in
   let len := Z.of_nat (length tags) in
@@ -347,14 +348,15 @@ Definition insert_list (tr : traits) (pos : Z) (tags : list Z) (vl : cvec * cled
   let vl2 := construct_down (length tags) (e + len) vl1 in
   let vl3 := move_bwd (Z.to_nat (e - pos)) e (e + len) vl2 in
   (assign_list tags pos vl3, pos).
-(* erase(pos): returns what std::move returned, i.e. the new end (not pos) *)
+(* erase(pos): move the tail down, destroy the vacated last element, return the position of the removed element *)
 Definition erase_one (pos : Z) (vl : cvec * cled) : cvec * cled * Z :=
   let e := vl_size vl in
   if e =? pos then (vl, e)
   else
     let vl1 := vl_with_size (e - 1) vl in
     if e - 1 =? pos then (upd_cell c_destroy (e - 1) vl1, e - 1)
-    else (move_fwd (Z.to_nat (e - (pos + 1))) (pos + 1) pos vl1, pos + (e - (pos + 1))).
+    else (upd_cell c_destroy (e - 1) (move_fwd (Z.to_nat (e - (pos + 1))) (pos + 1) pos vl1), pos).
+(* erase(first, last): move the tail down, destroy [e_it, end()) downwards, return first *)
 Definition erase_range (first last : Z) (vl : cvec * cled) : cvec * cled * Z :=
   let len := last - first in
   if len =? 0 then (vl, first + len)
@@ -362,8 +364,8 @@ Definition erase_range (first last : Z) (vl : cvec * cled) : cvec * cled * Z :=
     let sz := vl_size vl in
     let vl1 := move_fwd (Z.to_nat (sz - last)) last first vl in
     let e_it := first + (sz - last) in
-    let vl2 := if e_it <? last then destroy_down (Z.to_nat (last - e_it)) last vl1 else vl1 in
-    (vl_with_size (sz - len) vl2, e_it).
+    let vl2 := destroy_down (Z.to_nat (sz - e_it)) sz vl1 in
+    (vl_with_size (sz - len) vl2, first).
 Definition assign_tags (tr : traits) (tags : list Z) (vl : cvec * cled) : cvec * cled :=
   let n := Z.of_nat (length tags) in
   construct_list KCopy tags 0 (vl_with_size n (reserve tr n (clear vl))).
@@ -573,17 +575,6 @@ Definition op_pre (max_n : Z) (self other : list Z) (o : op) : bool :=
   | _ => true
   end.
 
-(* ---- the domains of the findings, as booleans on the operation in its (std::vector) context *)
-(* erase that has to shift a tail down: the vacated tail cells are never destroyed, and the new end() is returned *)
-Definition op_erase_shifts (self : list Z) (o : op) : bool :=
-  match o with
-  | OErase i => i <? zlen self - 1
-  | OEraseRange i j => (i <? j) && (j <? zlen self)
-  | _ => false
-  end.
-(* single-element insert: placement new over the (moved-from or default-constructed) element at pos *)
-Definition op_insert_single (o : op) : bool := match o with OInsert _ _ _ => true | _ => false end.
-
 Fixpoint seq_scan (f : list Z -> list Z -> op -> bool) (s : list Z * list Z) (ops : list (bool * op)) : bool :=
   match ops with
   | [] => true
@@ -591,13 +582,6 @@ Fixpoint seq_scan (f : list Z -> list Z -> op -> bool) (s : list Z * list Z) (op
       f (if sel then snd s else fst s) (if sel then fst s else snd s) o && seq_scan f (fst (spec_step s sel o)) r
   end.
 Definition seq_pre (max_n : Z) (ops : list (bool * op)) : bool := seq_scan (op_pre max_n) ([], []) ops.
-Definition seq_no_erase_shift (ops : list (bool * op)) : bool :=
-  seq_scan (fun self _ o => negb (op_erase_shifts self o)) ([], []) ops.
-Definition seq_no_insert_single (ops : list (bool * op)) : bool :=
-  seq_scan (fun _ _ o => negb (op_insert_single o)) ([], []) ops.
-(* the domain on which element lifetimes are balanced *)
-Definition seq_life_domain (ops : list (bool * op)) : bool := seq_no_erase_shift ops && seq_no_insert_single ops.
-
 Fixpoint spec_run (s : list Z * list Z) (ops : list (bool * op)) : list Z * list Z :=
   match ops with
   | [] => s
